@@ -601,6 +601,22 @@ func (r *Run) crash(spec CrashSpec) {
 	case "sigterm":
 		r.op("signal", fmt.Sprintf("SIGTERM mrp#%d at gate %d", r.Inc, p.Gates))
 		vproc.Deliver(p, syscall.SIGTERM)
+	case "sigterm-twice":
+		// an impatient operator (or a batch system escalating): a second SIGTERM while
+		// mrp is still shutting down after the first
+		r.op("signal", fmt.Sprintf("SIGTERM mrp#%d at gate %d, again a little later", r.Inc, p.Gates))
+		vproc.Deliver(p, syscall.SIGTERM)
+		at := r.Steps + 1 + int(hash64(r.FCfg.Salt, fmt.Sprint(p.Gates), "second-signal")%40)
+		done := false
+		r.StepHooks = append(r.StepHooks, func() {
+			if !done && r.Steps >= at {
+				done = true
+				if !p.Exited && !p.Dead {
+					r.Faults["second-signal-during-shutdown"]++
+					vproc.Deliver(p, syscall.SIGTERM)
+				}
+			}
+		})
 	case "sigint":
 		// ctrl-C: the whole foreground process group gets it
 		r.op("signal", fmt.Sprintf("SIGINT process group of mrp#%d at gate %d", r.Inc, p.Gates))
